@@ -142,7 +142,7 @@ def run(repo: Repo, chk: Check):
         chk.ok("R14.a", "package:no child process creation", None, vacuous=True)
 
     # ---------------------------------------------------------------- R14.b
-    fn = m.func("process_input")
+    fn = m.anchor("process_input")
     chk.saw("mod_daemon", "process_input")
     cfg = CFG(fn)
     rd = ReachingDefs(cfg)
@@ -360,7 +360,7 @@ def run(repo: Repo, chk: Check):
     chk.judge("R14.b", "package:data.result is assigned dictionaries only", not bad, f"{bad}", None, "compile_pass/generate_code")
 
     # ---------------------------------------------------------------- R14.c
-    mf = m.func("main")
+    mf = m.anchor("main")
     chk.saw("mod_daemon", "main")
     loops = [l for l in ast.walk(mf) if isinstance(l, ast.While)]
     if len(loops) != 1:
